@@ -42,6 +42,8 @@ def run(ctx):
     c05.r52(ctx, api, api.func('filter_val'), api.func('filter_in'), api.func('filter_not_in'), api.func('_handle_np_array'))
     c05.r54(ctx, api)
     c05.r55(ctx, api)
+    from . import c03
+    c03.r313(ctx, ctx.repo['core'], 'R13.6')
     from . import callsigs as _cs
     _cs.general_rules(ctx, 'R13', ['api.ParquetFile.to_pandas', 'api.ParquetFile.count', 'api.ParquetFile.read_row_group_file', 'api.ParquetFile.iter_row_groups', 'core.read_row_group', 'core.read_row_group_arrays', 'core.read_col', 'api.ParquetFile._column_filter', 'api.filter_row_groups'])
 
